@@ -54,10 +54,18 @@ def main(run):
     for c in BASH_CFGS:
         ok = build.config_available(c)
         plat[c] = "run" if ok else "skipped: CPU lacks the extension"
-        if ok and (not q or c in ("bash32", "avx2")):
+        if ok and (not q or c in ("bash32", "sse2", "avx2")):
             js += [dict(j, cfg=c) for j in bash_units]
         elif ok:
             plat[c] = "thorough only"
+    # the text codecs (hex / base64 / decimal): octet-string functions with SAFE/FAST editions of their own
+    try:
+        tb = [dict(j) for j in importlib.import_module("vlib.checks.c08").jobs("quick", scale) if "unit_text" in j["unit"]]
+    except Exception as e:
+        tb, missing = [], missing + ["c08 (%s)" % e]
+    for j in tb:
+        j.pop("cfg", None)
+    js += [dict(j, cfg=c) for c in cfgs if c != "asan64" for j in tb]
     run.coverage_extra["configurations"] = cfgs
     run.coverage_extra["bash_platform_variants"] = plat
     run.coverage_extra["modules_missing"] = missing
